@@ -29,7 +29,8 @@ RULE = ('scenario = (entry point, format {.p8,.p8.png}, destination {absent, exi
         'destination existed beforehand; distinct by (scenario, cart salt, fault kind and parameters).'
         " Further scenarios: two carts in one CLI invocation (luamin / writep8 / luafmt a x: the first output is new, the second exists; the earlier cart's output must be absent or complete after a failure) and library writes of a .p8.png with label_fname naming another file."
         ' Faults also come as Ctrl-C (an injected KeyboardInterrupt subclass, i.e. not an Exception) in the Lua writer and at the first, a middle and the last encoder write.'
-        ' Odd shards run after `p8tool --debug stats x.p8` and every fourth after `-q` in the same process (verbosity is process-global); "deep" scenarios write code that is too deeply nested for the AST formatter (it fails by itself with RecursionError) with further faults injected on top.')
+        ' Odd shards run after `p8tool --debug stats x.p8` and every fourth after `-q` in the same process (verbosity is process-global); "deep" scenarios write code that is too deeply nested for the AST formatter (it fails by itself with RecursionError) with further faults injected on top.'
+        ' Natural-failure scenarios (the command fails by itself; further faults are injected on top): code too deep for the formatter, `build` over a destination that is not a loadable cart, no usable directory for temporary files.')
 ASSUMPTIONS = ['"producing the cart" = the run of P8Formatter.to_file / P8PNGFormatter.to_file; an I/O error while the '
                'finished bytes are copied into the destination is outside the property and not injected',
                'a call that returns success although the injected fault fired is a violation only if the destination '
